@@ -21,7 +21,7 @@ import (
 
 type timingIn struct {
 	Mode string `json:"mode"`
-	Kind string `json:"kind"` // "block" | "hol" | "backlog"
+	Kind string `json:"kind"` // "block" | "hol" | "backlog" | "heart"
 	Call string `json:"call"` // block: read | write | writenobuf (blocked waiting for a write buffer) | open | accept
 	Rel  string `json:"rel"`  // block: releasing event
 	W    int    `json:"w"`
@@ -376,9 +376,112 @@ func backlogAttempt(in timingIn) map[string]any {
 	return att
 }
 
+// heartCase: heartbeats flow for a while (nobody may time out), then the carrier is
+// stalled with a Read, a Write and an Accept blocked; the heartbeat timeout closes the
+// multiplexers and the blocked calls must return (that last part is C25; the rest is
+// reported as counters).
+func heartCase(r *recorder, in timingIn) {
+	const transmit, receive = 10 * time.Millisecond, 300 * time.Millisecond
+	var hb [2]atomic.Int64
+	tap := func(from int, m *wireMsg) {
+		if m.Kind == "hb" {
+			hb[from].Add(1)
+		}
+	}
+	p := newPairHB(tap, false, 0, in.W, in.B, in.Bufs, transmit, receive)
+	defer p.shutdown()
+	heart := map[string]any{"ev": "Heart", "transmitMs": 10, "receiveMs": 300, "flowClosed": []bool{false, false},
+		"hb": []int{0, 0}, "detected": []bool{false, false}, "detectMs": []int{0, 0}, "ierr": []string{"", ""}, "setup": ""}
+	a, b, err := openPair(p)
+	if err != nil {
+		heart["setup"] = "open failed: " + errKind(err)
+		r.add(heart)
+		return
+	}
+	// flow phase with a little traffic
+	flowEnd := time.Now().Add(2 * receive)
+	for time.Now().Before(flowEnd) {
+		a.Write([]byte{1})
+		b.Read(make([]byte, 1))
+		time.Sleep(20 * time.Millisecond)
+	}
+	heart["flowClosed"] = []bool{isClosedChan(p.mux[0].Closed()), isClosedChan(p.mux[1].Closed())}
+	heart["hb"] = []int{int(hb[0].Load()), int(hb[1].Load())}
+	// blocked calls on endpoint 0
+	type call struct {
+		name string
+		done chan error
+		tret atomic.Int64
+	}
+	calls := []*call{{name: "read"}, {name: "write"}, {name: "accept"}}
+	for _, c := range calls {
+		c := c
+		c.done = make(chan error, 1)
+		go func() {
+			var err error
+			switch c.name {
+			case "read":
+				_, err = a.Read(make([]byte, 8))
+			case "write":
+				_, err = a.Write(make([]byte, in.W+50))
+			case "accept":
+				_, err = p.mux[0].AcceptStream(context.Background())
+			}
+			c.tret.Store(int64(nowMs()))
+			c.done <- err
+		}()
+	}
+	time.Sleep(settleBlock)
+	// stall: nothing is delivered any more in either direction
+	p.l.dir[0].setGated(true)
+	p.l.dir[1].setGated(true)
+	tStall := time.Now()
+	var tClosed [2]int
+	detected := []bool{false, false}
+	detectMs := []int{0, 0}
+	deadline := tStall.Add(receive + 4*time.Second)
+	for time.Now().Before(deadline) && !(detected[0] && detected[1]) {
+		for e := 0; e < 2; e++ {
+			if !detected[e] && isClosedChan(p.mux[e].Closed()) {
+				detected[e] = true
+				detectMs[e] = int(time.Since(tStall) / time.Millisecond)
+				tClosed[e] = nowMs()
+			}
+		}
+		time.Sleep(200 * time.Microsecond)
+	}
+	heart["detected"], heart["detectMs"] = detected, detectMs
+	heart["ierr"] = []string{ierrText(p.mux[0]), ierrText(p.mux[1])}
+	r.add(heart)
+	if !detected[0] {
+		return // nothing released the calls: no C25 obligation
+	}
+	for _, c := range calls {
+		att := map[string]any{"blocked": true, "returned": false, "lat": 0, "err": "", "setup": ""}
+		select {
+		case err := <-c.done:
+			att["returned"] = true
+			att["err"] = errKind(err)
+			lat := int(c.tret.Load()) - tClosed[0]
+			if lat < 0 {
+				lat = 0
+			}
+			att["lat"] = lat
+		case <-time.After(waitAfterRel):
+			att["lat"] = int(waitAfterRel / time.Millisecond)
+		}
+		r.add(map[string]any{"ev": "Block", "call": c.name, "rel": "heartbeat-timeout", "limit": limitMs,
+			"attempts": []map[string]any{att}, "t": nowMs()})
+	}
+}
+
 func runTimingCase(cid string, in timingIn) *recorder {
 	r := newRecorder(cid)
 	r.add(map[string]any{"ev": "Begin", "begin": true, "mode": "timing", "w": in.W, "b": in.B, "in": in})
+	if in.Kind == "heart" {
+		heartCase(r, in)
+		return r
+	}
 	var atts []map[string]any
 	ok := func(a map[string]any) bool {
 		switch in.Kind {
@@ -473,6 +576,7 @@ func timingCases(c *vlib.Ctx) []timingIn {
 					Cap: []int{0, 64}[rng.Intn(2)], N: 1 + rng.Intn(3), Seed: rng.Int63()})
 			}
 		}
+		out = append(out, timingIn{Mode: "timing", Kind: "heart", W: ws[rng.Intn(2)], B: 2, Bufs: bufs[rng.Intn(3)], Seed: rng.Int63()})
 		for _, b := range []int{1, 2, 3} {
 			out = append(out, timingIn{Mode: "timing", Kind: "backlog", W: 64, B: b, Bufs: bufs[rng.Intn(3)], N: 1 + rng.Intn(3), Seed: rng.Int63()})
 		}
